@@ -47,7 +47,7 @@ RULE_H = ("explicit-state search over abstract registry states (sequence of live
           "built by its canonical history in a child forked from a pristine process and every operation of the alphabet (create x5, failed create x3, destroy slot, use slot, "
           "7 error exits per slot, counter preset) is applied to it as real API calls; invariants of the set model are checked after each call, self-loops must leave the "
           "concrete observation (registry walk, ledger, table pointer) identical, and a state reached by an operation must look exactly like the same state built canonically; "
-          "plus an unmerged enumeration of all operation sequences over a 9-letter alphabet up to the stated depth; states = transitions explored (one per case), "
+          "plus an unmerged enumeration of all operation sequences over a 10-letter alphabet up to the stated depth; states = transitions explored (one per case), "
           "non-trivial = state-changing transition or an operation on a non-empty registry")
 ASSUME_H = ["<= 4 live instances; configurations rs_vand (2,1) (3,2), flat_xor_hd (3,3,3), isa_l_rs_vand (2,1) via the reference plug-in, null (2,1)",
             "descriptors are opaque tokens: states are merged up to descriptor renaming (the counter preset is part of the state); the unmerged sequence enumeration cross-checks this",
@@ -119,21 +119,25 @@ CHECKS = {
     "C15": {"runs": [{"name": "c15", "plan": "c15", "srcs": S, "san": "asan", "weight": 10, "opts": {"quick": {"isa_n": 12}}},
                      {"name": "states", "plan": "states", "srcs": H, "san": "asan", "opts": {"quick": {"slots": 3}, "thorough": {"slots": 4}}, "only_sites": r"history-dependent-output"},
                      {"name": "threads", "plan": "asan", "srcs": T_SRCS, "san": "asan", "hooks": True, "nosan": ("vsched.c",),
-                      "opts": {"quick": {"bound": 1, "drivers": 2}, "thorough": {"bound": 2, "drivers": 5}}, "only_sites": r"result-differs-from-sequential"}],
+                      "opts": {"quick": {"bound": 1, "drivers": 2}, "thorough": {"bound": 2, "drivers": 5}}, "only_sites": r"result-differs-from-sequential"},
+                     # thread independence of the data plane: state shared between calls (a static scratch buffer, a cached flag) is a conflicting access TSan reports
+                     {"name": "threads-data", "plan": "tsan", "srcs": T_SRCS, "san": "tsan", "hooks": True, "nosan": ("vsched.c",),
+                      "opts": {"quick": {"bound": 1, "drvmask": 0x3fc00}, "thorough": {"bound": 2, "drvmask": 0x3fc00}}, "only_sites": r"result-differs-from-sequential|tsan-data-race"}],
             "level": "model_checking", "deadline": {"quick": 150, "thorough": 1200},
             "rule": ("(1) data plane: every shape x three lengths x all erasure sets within tolerance (exhaustive for n <= 8 | 10) x decode + reconstruct of every index, with the caller's data, "
                      "fragments, pointer array and index lists on read-only pages that end at (or start after) a PROT_NONE page, in three placements (end-abutting, 16-aligned start, "
                      "odd alignment): any write to an input or read outside it faults and is attributed to the case; encode repeated after all that activity must give identical bytes; "
                      "(2) histories: in every abstract registry state (<= 3 | 4 live instances) every live instance's outputs are compared with those of a fresh process; "
-                     "(3) threads: in every schedule of drivers W1/W2 up to the preemption bound each thread's outputs are compared with the sequential execution; "
+                     "(3) threads: in every schedule of drivers W1/W2 up to the preemption bound each thread's outputs are compared with the sequential execution, and in every schedule of the "
+                     "data-plane drivers U* (two threads using pre-created instances; read locks only) ThreadSanitizer must report no conflicting access and the outputs must equal the sequential ones; "
                      "non-trivial = the case reached a backend operation / operated on a non-empty registry / switched threads"),
             "assumptions": ASSUME_S + ["sanitizer reports under the thread scheduler are C18's findings and are not counted here; only output differences are"]},
     "C19": {"runs": [
         {"name": "c19inj", "plan": "c19inj", "srcs": S, "san": "asan"},
         {"name": "c19sing", "plan": "c19sing", "srcs": S, "san": "asan"},
-        {"name": "c19rt", "plan": "c19rt", "srcs": S, "san": "asan", "opts": {"quick": {"ex_n": 10, "st_lens": 2}}},
-        {"name": "c19rc", "plan": "c19rc", "srcs": S, "san": "asan", "opts": {"quick": {"ex_n": 8, "st_lens": 1, "ex_lens": 2, "max_n": 16}}},
-        {"name": "c19sc", "plan": "c19sc", "srcs": S, "san": "asan", "opts": {"quick": {"all_n": 10}}},
-        {"name": "c19fn", "plan": "c19fn", "srcs": S, "san": "asan", "opts": {"quick": {"ex_n": 8}}},
+        {"name": "c19rt", "plan": "c19rt", "srcs": S, "san": "asan", "opts": {"quick": {"ex_n": 9, "st_lens": 2}}},
+        {"name": "c19rc", "plan": "c19rc", "srcs": S, "san": "asan", "opts": {"quick": {"ex_n": 7, "st_lens": 1, "ex_lens": 2, "max_n": 14}}},
+        {"name": "c19sc", "plan": "c19sc", "srcs": S, "san": "asan", "opts": {"quick": {"all_n": 9}}},
+        {"name": "c19fn", "plan": "c19fn", "srcs": S, "san": "asan", "opts": {"quick": {"ex_n": 7, "st_t": 4}}},
     ], "level": "model_checking", "deadline": {"quick": 240, "thorough": 1500}, "rule": RULE_S, "assumptions": ASSUME_S},
 }
